@@ -150,7 +150,7 @@ class ResourceScenario(ScenarioData):
                         self.scoreboard[i] = val | (leave_type << 2)
 
         # Apply resource-specific leaves
-        res_leaves = self.property.get("leaves", self.scenarioIdx)
+        res_leaves = self._leavesInEffect()
         if res_leaves:
             for leave in res_leaves:
                 if hasattr(leave, "interval"):
@@ -166,6 +166,28 @@ class ResourceScenario(ScenarioData):
                         else:
                             leave_type = leave.type_idx if hasattr(leave, "type_idx") else 0
                             self.scoreboard[i] = leave_type << 2
+
+    def _leavesInEffect(self) -> list[Any]:
+        """
+        Leaves of this resource and of every enclosing resource group.
+
+        A resource without leaves of its own inherits the group's list; one that
+        declares its own keeps only those in the attribute, so the groups' leaves
+        are added here (once each).
+        """
+        result: list[Any] = list(self.property.get("leaves", self.scenarioIdx) or [])
+        if self.property.parent is None:
+            return result
+        seen = {
+            (leave.interval.start, leave.interval.end) for leave in result if getattr(leave, "interval", None) is not None
+        }
+        for group in self.property.ancestors():
+            for leave in group.get("leaves", self.scenarioIdx) or []:
+                interval = getattr(leave, "interval", None)
+                if interval is not None and (interval.start, interval.end) not in seen:
+                    seen.add((interval.start, interval.end))
+                    result.append(leave)
+        return result
 
     def calcCriticalness(self) -> None:
         """
@@ -533,7 +555,7 @@ class ResourceScenario(ScenarioData):
                     return False
 
         # Check resource-level leaves/vacations
-        leaves = self.property.get("leaves", self.scenarioIdx)
+        leaves = self._leavesInEffect()
         if leaves:
             for leave in leaves:
                 if hasattr(leave, "interval") and leave.interval and leave.interval.start <= date < leave.interval.end:
